@@ -10,7 +10,7 @@ for d in props/*/; do
   id=$(basename $d); ID=$id
   if [ -f $d/PARTS ]; then
     .build/bin/vinst -repo /repo -out .build/inst-$id -variant $id >/dev/null
-    for part in $(tr -d '+' < $d/PARTS); do build go build -tags "verif verif$id" -overlay .build/inst-$id/overlay.json -o .build/bin/$id-$part ./props/$part; done
+    for part in $(tr -d '+=' < $d/PARTS); do build go build -tags "verif verif$id" -overlay .build/inst-$id/overlay.json -o .build/bin/$id-$part ./props/$part; done
     build go build -o .build/bin/$id ./$d
   elif [ -f $d/INSTRUMENT ]; then
     v=$(cat $d/INSTRUMENT)
